@@ -20,6 +20,8 @@ pub struct MacroRule {
 #[derive(Clone, Debug)]
 pub struct MacroDef {
     pub rules: Vec<MacroRule>,
+    /// last line of the definition: a use must come after it (textual scoping)
+    pub end_line: usize,
 }
 
 fn is_punct(t: &TokenTree, c: char) -> bool {
@@ -63,7 +65,30 @@ pub fn parse_macro_rules(it: &syn::ItemMacro) -> Result<(String, MacroDef), Stri
     if rules.is_empty() {
         return Err(format!("macro `{}` has no rules", name));
     }
-    Ok((name, MacroDef { rules }))
+    // C-MACRO: the expander tries the rules in order like rustc, but its matching is cruder; so
+    // the rules must be told apart by their first tokens alone: every rule starts with `@` and a
+    // distinct word / number, except at most one, which starts with an `ident` fragment (an
+    // invocation starting with `@` cannot match it, nor the other way round)
+    if rules.len() > 1 {
+        let mut heads: Vec<String> = vec![];
+        let mut plain = 0;
+        for r in &rules {
+            match (r.matcher.first(), r.matcher.get(1)) {
+                (Some(M::Tok(a)), Some(M::Tok(b))) if a == "@" => {
+                    if heads.contains(b) {
+                        return Err(format!("macro `{}`: two rules start with `@{}`", name, b));
+                    }
+                    heads.push(b.clone());
+                }
+                (Some(M::Var(_, k)), _) if k == "ident" => plain += 1,
+                _ => return Err(format!("macro `{}`: its rules are not distinguished by a leading `@word`", name)),
+            }
+        }
+        if plain > 1 {
+            return Err(format!("macro `{}`: more than one rule without a leading `@word`", name));
+        }
+    }
+    Ok((name, MacroDef { rules, end_line: it.mac.delimiter.span().close().end().line }))
 }
 
 fn parse_matcher(ts: TokenStream) -> Result<Vec<M>, String> {
@@ -84,8 +109,13 @@ fn parse_matcher(ts: TokenStream) -> Result<Vec<M>, String> {
                 _ => return Err("unsupported `$` form in a matcher (repetitions are unsupported)".into()),
             }
         } else {
+            // literal tokens: `@`, `,`, words and numbers only (rustc's tokens are coarser than
+            // proc_macro2's for `==`, `=>`, ..; `_` is not an identifier for rustc)
             match &toks[i] {
                 TokenTree::Group(_) => return Err("groups in a matcher are unsupported".into()),
+                TokenTree::Punct(p) if p.as_char() == '@' || p.as_char() == ',' => out.push(M::Tok(p.as_char().to_string())),
+                TokenTree::Punct(p) => return Err(format!("the token `{}` in a matcher is unsupported", p.as_char())),
+                TokenTree::Ident(i) if i == "_" => return Err("`_` in a matcher is unsupported".into()),
                 t => out.push(M::Tok(t.to_string())),
             }
             i += 1;
@@ -229,6 +259,16 @@ fn declared(body: TokenStream, out: &mut Vec<String>) {
 /// identifier that the transcriber binds is refused.
 pub fn expand(def: &MacroDef, input: TokenStream) -> Result<TokenStream, String> {
     let toks: Vec<TokenTree> = input.into_iter().collect();
+    // C-MACRO: the arguments are words, numbers, `as` casts, separated by `,` (and a leading `@`)
+    for t in &toks {
+        match t {
+            TokenTree::Punct(p) if p.as_char() == '@' || p.as_char() == ',' => {}
+            TokenTree::Punct(p) => return Err(format!("the token `{}` in a macro argument is unsupported", p.as_char())),
+            TokenTree::Group(_) => return Err("a bracketed group in a macro argument is unsupported".into()),
+            TokenTree::Ident(i) if i == "_" => return Err("`_` as a macro argument is unsupported".into()),
+            _ => {}
+        }
+    }
     for r in &def.rules {
         if let Some(b) = try_match(&r.matcher, &toks) {
             let mut decl = vec![];
